@@ -73,7 +73,8 @@ fn main() {
                 "C18" => c18::corr(&mut ctx),
                 "C14" => c14::corr(&mut ctx),
                 "C20" => c20::corr(&mut ctx),
-                "C02" | "C01" => c02::corr(&mut ctx),
+                "C02" => c02::corr(&mut ctx),
+                "C01" => c02::corr_opts(&mut ctx, false),
                 "C04" => {
                     c04::corr_smh(&mut ctx);
                     ssk::corr_sets(&mut ctx);
